@@ -9,11 +9,11 @@ if ! git diff --quiet; then echo "REFUSING: /repo has uncommitted changes"; exit
 if ! git apply --check "$PATCH" 2>/dev/null; then
   if git apply --3way --check "$PATCH" 2>/dev/null; then MODE="--3way"; else echo "PATCH-DOES-NOT-APPLY $PATCH"; exit 3; fi
 else MODE=""; fi
-git apply $MODE "$PATCH" || { echo "PATCH-APPLY-FAILED"; git checkout -- . ; exit 3; }
+git apply $MODE "$PATCH" || { echo "PATCH-APPLY-FAILED"; git reset -q --hard HEAD; exit 3; }
 for id in "$@"; do
   out=$(cd /verif && timeout 3000 ./check "$id" --tier quick 2>&1)
   code=$?
   echo "$id exit=$code $(echo "$out" | grep -E "^$id tier=" | head -1)"
   echo "$out" | grep -E "VIOLATION|detail:" | head -4 | sed 's/^/    /' | cut -c1-260
 done
-git checkout -- . ; git reset -q 2>/dev/null; git status --short | head -3
+git reset -q --hard HEAD; git status --short | head -3
